@@ -42,10 +42,11 @@ func c07Pool(quick bool) []recipe {
 		{},
 		{{Key: 0, Mask: A}},
 		{{Key: 0xFFFF, Mask: R}},
+		{{Key: 0, Mask: F}, {Key: 5, Mask: A}}, // wipes a whole leading chunk of the others, skips their middle keys
 	}
 	var rs []recipe
 	if quick {
-		for _, i := range []int{0, 1, 2, 3, 4, 5, 7, 9} {
+		for _, i := range []int{0, 1, 2, 3, 4, 5, 7, 9, 10} {
 			rs = append(rs, specRecipe(shapes.Spec{Chunks: specs[i], Mode: shapes.Opt, Share: shapes.Plain}))
 		}
 		rs = append(rs, specRecipe(shapes.Spec{Chunks: specs[0], Mode: shapes.Opt, Share: shapes.COW}))
